@@ -92,6 +92,10 @@ class Cte(AliasedQuery):
         self.query = query
         self.terms = terms
 
+    def replace_table(self, current_table: "Table" | None, new_table: "Table" | None) -> "Cte":
+        query = self.query.replace_table(current_table, new_table) if self.query is not None else None
+        return Cte(self.name, query, *self.terms)
+
 
 class Schema:
     def __init__(self, name: str, parent: Schema | None = None) -> None:
@@ -992,6 +996,29 @@ class QueryBuilder(Selectable, Term):  # type:ignore[misc]
             for orderby in self._orderbys
         ]
         self._joins = [join.replace_table(current_table, new_table) for join in self._joins]
+        self._updates = [
+            (field.replace_table(current_table, new_table), value.replace_table(current_table, new_table))
+            for field, value in self._updates
+        ]
+        self._on_conflict_fields = [
+            field.replace_table(current_table, new_table) if isinstance(field, Term) else field
+            for field in self._on_conflict_fields
+        ]
+        self._on_conflict_do_updates = [
+            (
+                field.replace_table(current_table, new_table) if isinstance(field, Term) else field,
+                value.replace_table(current_table, new_table) if isinstance(value, Term) else value,
+            )
+            for field, value in self._on_conflict_do_updates
+        ]
+        if self._on_conflict_wheres:
+            self._on_conflict_wheres = self._on_conflict_wheres.replace_table(
+                current_table, new_table
+            )
+        if self._on_conflict_do_update_wheres:
+            self._on_conflict_do_update_wheres = self._on_conflict_do_update_wheres.replace_table(
+                current_table, new_table
+            )
 
         if current_table in self._select_star_tables:
             self._select_star_tables.remove(current_table)
